@@ -44,6 +44,44 @@ const ENV_PROFILES: [&[(&str, &str)]; 4] = [
     &[("COLORFGBG", "7;0"), ("TERM", ""), ("LANG", ""), ("LC_ALL", ""), ("TZ", ":/nonexistent"), ("PATH", ""), ("HOME", "/"), ("NO_COLOR", "0"), ("CLICOLOR", "1")],
 ];
 
+/// Give `cmd` a hostile but legitimate process environment: cleared and refilled from profile `which` (the harness's
+/// own VERIF_* / VCHECK_* variables pass through), every OTHER variable answered as if it were set by the LD_PRELOAD
+/// monitor `harness/shim/envspy.c` (which also logs each distinct name consulted into `spy_log`, lets the wall clock
+/// jump a day per reading and reports a terminal on descriptors 0-2), and a standard error that cannot be written (a
+/// full device; a closed pipe behaves alike for `eprintln!`): diagnostics a library prints must not turn into a panic
+/// of the call that printed them, and nothing the crate produces may depend on any of this. Returns false when the
+/// monitor library is missing (the rest is still applied).
+pub fn hostile_environment(cmd: &mut Command, root: &std::path::Path, which: usize, answer: &str, spy_log: &std::path::Path) -> bool {
+    cmd.env_clear();
+    for (k, v) in std::env::vars_os() {
+        let ks = k.to_string_lossy();
+        if ks.starts_with("VERIF_") || ks.starts_with("VCHECK_") {
+            cmd.env(k, v);
+        }
+    }
+    for (k, v) in ENV_PROFILES[which % ENV_PROFILES.len()] {
+        cmd.env(k, v);
+    }
+    let spy = root.join("harness/shim/envspy.so");
+    let loaded = spy.is_file();
+    if loaded {
+        cmd.env("LD_PRELOAD", &spy).env("ENVSPY_LOG", spy_log).env("ENVSPY_ANSWER", answer).env("ENVSPY_CLOCK", "1").env("ENVSPY_TTY", "1");
+    }
+    match std::fs::OpenOptions::new().write(true).open("/dev/full") {
+        Ok(f) => {
+            cmd.stderr(Stdio::from(f));
+        }
+        Err(_) => {
+            cmd.stderr(Stdio::null());
+        }
+    }
+    loaded
+}
+
+pub fn describe_profile(which: usize) -> String {
+    ENV_PROFILES[which % ENV_PROFILES.len()].iter().map(|(k, v)| format!("{k}={v}")).collect::<Vec<_>>().join(" ")
+}
+
 /// Environment stage: the same verif-profile binary re-runs a third of the quick workload in a child process whose
 /// environment is (a) cleared and then (b) filled with one of the profiles above.
 fn environment_stage(ctx: &Ctx, prop: &str, rep: &mut Report) {
@@ -70,39 +108,13 @@ fn environment_stage(ctx: &Ctx, prop: &str, rep: &mut Report) {
         let _ = std::fs::write(&p, b"decoy");
     }
     let mut cmd = Command::new(&exe);
-    cmd.args(["run", prop, "--tier", "quick"]).env_clear().current_dir(&cwd);
-    // what the harness itself needs
-    for (k, v) in std::env::vars_os() {
-        let ks = k.to_string_lossy();
-        if ks.starts_with("VERIF_") || ks.starts_with("VCHECK_") {
-            cmd.env(k, v);
-        }
-    }
-    for (k, v) in profile {
-        cmd.env(k, v);
-    }
-    // ... and every variable that is NOT set is answered as if it were, whatever its name: an LD_PRELOAD monitor
-    // (harness/shim/envspy.c) sits on getenv/secure_getenv, logs each distinct name the process consults and answers
-    // unset, unprotected names with a truthy value. Code that keys on the presence of some variable of its own is
-    // then exercised without the harness having to guess the name; the oracles judge the output as always.
-    let spy = ctx.root.join("harness/shim/envspy.so");
+    cmd.args(["run", prop, "--tier", "quick"]).current_dir(&cwd);
     let spy_log = evdir.join("envspy.log");
     const ANSWERS: [&str; 5] = ["1", "true", "yes", "trace", "2"];
     let answer = ANSWERS[(ctx.seed as usize / 7 + prop.len() + which) % ANSWERS.len()];
-    if spy.is_file() {
-        cmd.env("LD_PRELOAD", &spy).env("ENVSPY_LOG", &spy_log).env("ENVSPY_ANSWER", answer).env("ENVSPY_CLOCK", "1").env("ENVSPY_TTY", "1");
-    } else {
+    let spy = ctx.root.join("harness/shim/envspy.so");
+    if !hostile_environment(&mut cmd, &ctx.root, which, answer, &spy_log) {
         rep.stats.inconclusive(format!("environment stage: {} is missing (run ./setup.sh)", spy.display()));
-    }
-    // standard error that cannot be written (a full device; a closed pipe behaves alike for `eprintln!`): diagnostics a
-    // library prints must not turn into a panic of the call that printed them. The harness prints nothing there.
-    match std::fs::OpenOptions::new().write(true).open("/dev/full") {
-        Ok(f) => {
-            cmd.stderr(Stdio::from(f));
-        }
-        Err(_) => {
-            cmd.stderr(Stdio::null());
-        }
     }
     cmd.env("VCHECK_STAGE_CHILD", "environment").env("VERIF_THIN", "3").env("VERIF_SEED", format!("{}", (ctx.seed ^ 0xe57a6e) as i128)).env("VERIF_EVIDENCE_DIR", &evdir).stdin(Stdio::null());
     let out = match cmd.output() {
